@@ -405,7 +405,9 @@ def run_native(top, registry, state, extra_check=None):
             base = (getattr(f, '__module__', '') or '').split('.')[0]
             fname = getattr(f, '__name__', None)
             stub = b.callback(cb)
-            for pname in {base, base.lstrip('_')}:  # C accelerators live in _asyncio, the code says asyncio.X
+            # C accelerators live in _asyncio, the code says asyncio.X; a function of a repo/library submodule
+            # (bumble.crypto.f4) is reached through that module's attribute
+            for pname in {base, base.lstrip('_'), getattr(f, '__module__', '') or ''}:
                 pkg = sys.modules.get(pname)
                 if pkg is not None and fname and getattr(pkg, fname, None) is f:
                     patches.append((pkg, fname, f))
